@@ -20,7 +20,7 @@ func init() {
 		ID: "C11", Level: "model_checking",
 		Rule:   "ELX on the real Client against scripted servers: n in {1,2,3} requests in flight (each in state HEADERS-sent / response HEADERS received / partial body), GOAWAY(last-stream-id in {0, each in-flight id, above all}, code in {NO_ERROR, PROTOCOL_ERROR}) at every such position, followed by every ordering of {complete the response of a promised stream, RST_STREAM(REFUSED_STREAM) on a stream, a new request by a new caller, server closes the connection, timer}. Oracle per request tag: its HEADERS reach a server at most once unless every earlier copy was disclaimed (id above last-stream-id, or REFUSED_STREAM); retry=true or an internal re-send only in that case; no new stream on a connection after its GOAWAY; requests above last-stream-id are resolved with an error (never success) at the quiescent state after the GOAWAY; requests at or below it that the script answers complete with exactly that answer. Non-trivial: every scenario; distinct by scenario.",
 		Assume: []string{"'promptly' = at the quiescent state reached after the GOAWAY was delivered, without any timer firing", "canonical internal schedule between events"},
-		Run:    runC11, Replay: replayC11, QuickS: 120, ThoroughS: 600,
+		Run:    runC11, Replay: replayC11, Policies: 1, QuickS: 120, ThoroughS: 600,
 	})
 }
 
